@@ -120,6 +120,16 @@ func bvBin(op string, a, b *Expr) *Expr {
 				return mkExpr(op, w, nil, "", 0, 0, a, b)
 			}
 			r.Mod(x, y)
+		case "bvsdiv", "bvsrem":
+			if y.Sign() == 0 {
+				return mkExpr(op, w, nil, "", 0, 0, a, b)
+			}
+			q, rm := new(big.Int).QuoRem(a.signedVal(), b.signedVal(), new(big.Int)) // truncated, like Go and SMT-LIB
+			if op == "bvsdiv" {
+				r = q
+			} else {
+				r = rm
+			}
 		default:
 			return mkExpr(op, w, nil, "", 0, 0, a, b)
 		}
